@@ -39,6 +39,10 @@ def gen_case(chk, i):
     # clock difference only misbehaves when stream heads are seconds apart
     span = rng.choice([5, 50, 2000, 10 ** 6, 3 * 10 ** 9, 5 * 10 ** 9, 10 ** 10, 10 ** 12])
     pool = sorted(rng.randint(10 ** 6, 10 ** 6 + span) for _ in range(rng.randint(2, 40)))
+    # virtual time may start at zero: the earliest corrected clock of the trace is exactly 0
+    zero = rng.random() < 0.2 and all(l["off"] <= 0 for l in looms)
+    if zero:
+        pool = sorted(set([0] + [rng.randint(0, span) for _ in range(rng.randint(2, 40))]))
     streams = []
     uid = 0
     tid = 1000
@@ -48,7 +52,7 @@ def gen_case(chk, i):
         n = rng.choice([0, 1, 2, rng.randint(0, 60), rng.randint(0, 60), rng.randint(0, 60),
                         rng.randint(200, 3000) if rng.random() < 0.3 else 5])
         cl = sorted(rng.choice(pool) for _ in range(n + 2))
-        if equal_first:
+        if equal_first or (zero and s == 0):
             cl[0] = pool[0]
         evs = []
         off = looms[lm]["off"]
